@@ -188,7 +188,8 @@ inductive Verdict where
 deriving Repr
 
 def verdict (bs : Bytes) : Verdict :=
-  match scanValue (bs.length + 2) bs 0 with
+  -- fuel: each nesting level and each element / member costs at most two units per byte consumed
+  match scanValue (2 * bs.length + 4) bs 0 with
   | .eof => .prefix
   | .dead d s => .dead d s
   | .ok r p =>
@@ -198,7 +199,7 @@ def verdict (bs : Bytes) : Verdict :=
     | _ :: _ => .dead p none
 
 /-- one value at the head of a stream (leading whitespace allowed): where it ends -/
-def valueEnd (bs : Bytes) : R := scanValue (bs.length + 2) bs 0
+def valueEnd (bs : Bytes) : R := scanValue (2 * bs.length + 4) bs 0
 
 /-- index just past the string literal that starts at `start` when scanned leniently (first
     unescaped quote), or the input length -/
@@ -211,5 +212,10 @@ def literalEnd (bs : Bytes) (start : Nat) : Nat :=
                  else if b == 0x22 then p + 1
                  else go r' (p + 1) false
   go (bs.drop (start + 1)) (start + 1) false
+
+
+/-- fuel is ample: nested openers followed by a dead byte are `dead` at that byte, not "prefix" -/
+example : (match verdict [0x5b, 0x5b, 0x5b, 0x78] with | .dead 3 _ => true | _ => false) = true := by decide
+example : (match verdict ((List.replicate 50 0x5b) ++ [0x78] ++ List.replicate 40 0x5d) with | .dead 50 _ => true | _ => false) = true := by decide +kernel
 
 end SJ.Spec.Pos
